@@ -185,7 +185,10 @@ def judge_real(case, obs):
         if abs(r[1] - max(r[2] - sp.max_EFT_allowable, sp.min_EFT_allowable - r[3])) > 1e-12:
             v("C12", "search_log_row_inconsistent", f"search log row {r} violates excess = max(max-upper, lower-min)")
             break
-    # C12 / C19: file level
+    # C12 / C19: file level (the output writer cannot handle horizons that are not whole years - IndexError in get_summary_text,
+    # observation O9 in DESIGN.md; no summary exists then, so there is nothing to compare)
+    if case.get("months", 24) % 12 != 0:
+        return V, label
     d, files = physics.write_outputs(m)
     try:
         js = json.loads(files["SimulationSummary.json"])
